@@ -1193,6 +1193,17 @@ class Program:
             for _ in range(3):
                 if not self._fold_new_helpers():
                     break
+            # a const local that receives a folded helper's result names that result (N6 once more, now that the definition is in view)
+            if NORMALIZE_ALIAS:
+                for fm in self.variants.values():
+                    for f in fm.values():
+                        if f.d.get("foldedHelpers") and f.cfg:
+                            f._parent = None
+                            f._blocks = None
+                            try:
+                                f._inline_const_aliases()
+                            except (KeyError, IndexError, ValueError):
+                                pass
 
     # N11: a helper that is not in the function inventory of the pinned tree (psv/inventory.json) — i.e. one that a later refactoring
     #      extracted —, that is called from exactly one place and whose only `return` is its last statement, is folded back into its
@@ -1208,8 +1219,9 @@ class Program:
         changed = False
         for unit, fmap in self.variants.items():
             funcs = list(fmap.values())
-            new = {g.usr: g for g in funcs if g.file.startswith(REPO) and g.kind == "function" and g.cfg and g.body is not None and g.body >= 0
-                   and "%s:%s" % (os.path.basename(g.file), g.name) not in inv and not g.d.get("folded")}
+            new = {g.usr: g for g in funcs if g.file.startswith(REPO) and g.kind in ("function", "method") and g.cfg and g.body is not None and g.body >= 0
+                   and "%s:%s" % (os.path.basename(g.file), g.name) not in inv and not g.d.get("folded")
+                   and not g.name.startswith(("operator", "~")) and g.name != (g.cls or "").split("::")[-1].split("<")[0]}
             lambdas = {g.usr: g for g in funcs if g.file.startswith(REPO) and g.kind == "lambda" and g.name == "operator()" and g.cfg and
                        g.body is not None and g.body >= 0 and not g.d.get("folded")}
             try:
@@ -1255,14 +1267,12 @@ class Program:
             for usr, ss in sites.items():
                 if any(ci < 0 for _f, ci in ss):
                     continue
-                # one call site in the source (several callers only as instantiations of one template)
-                if len({(f_.file, tuple(f_.nodes[ci]["loc"])) for f_, ci in ss}) != 1:
-                    continue
+                # every call site gets its own copy of the helper (N11; a helper called from several places included)
                 g = new[usr]
+                if any(f_ is g for f_, _ci in ss):
+                    continue                    # recursive
                 done = 0
-                for f, ci in ss:
-                    if f is g:
-                        continue
+                for f, ci in sorted(ss, key=lambda t: -t[1]):
                     try:
                         if self._fold_one(f, ci, g):
                             done += 1
@@ -1271,7 +1281,91 @@ class Program:
                 if done:
                     g.d["folded"] = True
                     changed = True
+                    if done == len(ss):
+                        # every call is now part of its caller: the helper is no longer a function of the program
+                        fmap.pop(g.usr, None)
+                        if self.functions.get(g.usr) is g or all(g.usr not in fm for fm in self.variants.values()):
+                            self.functions.pop(g.usr, None)
+                            if g in self.by_name.get(g.name, []):
+                                self.by_name[g.name].remove(g)
         return changed
+
+    def _single_exit(self, g):
+        """Tree of helper g (a function the pinned tree does not have) rewritten so that every `return` is the last statement executed on
+        its path: `if (c) return a; rest` becomes `if (c) return a; else { rest }` (statements after an unconditional return are dead and
+        leave the tree).  The CFG is left as it is — it already sends every return to the exit.  False when a return sits inside a loop, a
+        switch or a try block."""
+        if g.d.get("singleExit") is not None:
+            return g.d["singleExit"]
+        nodes = g.nodes
+
+        def has_ret(i):
+            return any(nodes[x]["k"] == "ReturnStmt" for x in g.walk(i))
+
+        def always_returns(i):
+            k = nodes[i]["k"]
+            if k == "ReturnStmt":
+                return True
+            if k == "CompoundStmt":
+                kids = [x for x in nodes[i]["ch"] if x >= 0]
+                return bool(kids) and always_returns(kids[-1])
+            if k == "IfStmt":
+                e = nodes[i].get("else", -1)
+                return e is not None and e >= 0 and always_returns(nodes[i]["then"]) and always_returns(e)
+            return False
+
+        def as_list(i):
+            return [x for x in nodes[i]["ch"] if x >= 0] if nodes[i]["k"] == "CompoundStmt" else [i]
+
+        def compound(kids, like):
+            nodes.append(dict(k="CompoundStmt", ch=list(kids), loc=nodes[like]["loc"], f=nodes[like].get("f"), synthetic=True))
+            return len(nodes) - 1
+
+        def proc(kids):
+            for idx, st in enumerate(kids):
+                if not has_ret(st):
+                    continue
+                k = nodes[st]["k"]
+                rest = kids[idx + 1:]
+                if k == "ReturnStmt":
+                    return kids[:idx + 1]
+                if k == "CompoundStmt":
+                    tail = proc(as_list(st) + rest)
+                    return None if tail is None else kids[:idx] + tail
+                if k != "IfStmt":
+                    return None
+                n = nodes[st]
+                th, el = n["then"], n.get("else", -1)
+                el = el if el is not None else -1
+                th_all = always_returns(th)
+                el_all = el >= 0 and always_returns(el)
+                if (has_ret(th) and not th_all) or (el >= 0 and has_ret(el) and not el_all):
+                    return None
+                if th_all and el_all:
+                    a, b = proc(as_list(th)), proc(as_list(el))
+                elif th_all:
+                    a, b = proc(as_list(th)), proc((as_list(el) if el >= 0 else []) + rest)
+                else:
+                    a, b = proc(as_list(th) + rest), proc(as_list(el))
+                if a is None or b is None:
+                    return None
+                nt = a[0] if len(a) == 1 and nodes[a[0]]["k"] != "DeclStmt" else compound(a, st)
+                ne = b[0] if len(b) == 1 and nodes[b[0]]["k"] != "DeclStmt" else compound(b, st)
+                n["then"], n["else"] = nt, ne
+                n["ch"] = [x for x in (n.get("cond", -1), nt, ne)]
+                n["normalized"] = "single exit"
+                return kids[:idx + 1]
+            return kids
+        ok = False
+        gb = nodes[g.body] if g.body is not None and g.body >= 0 else None
+        if gb is not None and gb["k"] == "CompoundStmt" and not any(nodes[x]["k"] in ("GotoStmt", "LabelStmt", "CXXTryStmt") for x in g.walk()):
+            kids = proc([x for x in gb["ch"] if x >= 0])
+            if kids is not None:
+                gb["ch"] = kids
+                g._parent = None
+                ok = True
+        g.d["singleExit"] = ok
+        return ok
 
     def _fold_one(self, f, ci, g):
         TR = ("ImplicitCastExpr", "ParenExpr", "ExprWithCleanups", "MaterializeTemporaryExpr", "CXXBindTemporaryExpr")
@@ -1284,6 +1378,7 @@ class Program:
         pk = f.nodes[par[top]]["k"] if par[top] >= 0 else None
         lhs_node = None       # caller lvalue that receives the result (node id) ...
         decl_target = None    # ... or the declaration it initialises
+        returned = False      # ... or the caller returns it
         if pk in STMT_PARENTS:
             S = top
         elif pk == "BinaryOperator" and f.nodes[par[top]].get("op") == "=" and f.nodes[par[top]]["ch"][1] == top:
@@ -1298,26 +1393,47 @@ class Program:
             decl_target = f.nodes[S]["decls"][0]
             if par[S] < 0 or f.nodes[par[S]]["k"] not in STMT_PARENTS:
                 return False
+        elif pk == "ReturnStmt" and par[par[top]] >= 0 and f.nodes[par[par[top]]]["k"] in STMT_PARENTS:
+            S = par[top]
+            returned = True
         else:
             return False
         SP = par[S]
-        # --- the helper: statements, single trailing return
+        # --- the helper: statements; every return the last statement on its path (N11b)
         gb = g.nodes[g.body]
         if gb["k"] != "CompoundStmt":
             return False
+        if not self._single_exit(g):
+            return False
         kids = [x for x in gb["ch"] if x >= 0]
         rets = [x for x in g.walk() if g.nodes[x]["k"] == "ReturnStmt"]
-        if len(rets) > 1 or (rets and (not kids or kids[-1] != rets[0])):
-            return False
         if any(g.nodes[x]["k"] in ("LambdaExpr", "CXXTryStmt", "GotoStmt", "LabelStmt") for x in g.walk()):
             return False
-        ret_expr = g.ch(rets[0])[0] if rets and g.ch(rets[0]) else -1
-        if (lhs_node is not None or decl_target is not None) and ret_expr < 0:
+        multi = returned or len(rets) > 1 or bool(rets and (not kids or kids[-1] != rets[0]))
+        if multi and (lhs_node is not None or decl_target is not None) and any(not g.ch(r) for r in rets):
+            return False
+        ret_expr = g.ch(rets[0])[0] if rets and not multi and g.ch(rets[0]) else -1
+        if not multi and (lhs_node is not None or decl_target is not None) and ret_expr < 0:
             return False
         is_lambda = g.kind == "lambda"
+        this_obj = None
         if is_lambda:
             args = [a for a in f.nodes[ci]["ch"][2:]]
             if f.nodes[ci]["k"] != "CXXOperatorCallExpr":
+                return False
+        elif g.kind == "method":
+            args = [a for a in f.nodes[ci]["ch"][1:]]
+            if f.nodes[ci]["k"] != "CXXMemberCallExpr" or not f.nodes[ci]["ch"] or f.nodes[ci]["ch"][0] < 0:
+                return False
+            me = f.strip(f.nodes[ci]["ch"][0])
+            if f.nodes[me]["k"] != "MemberExpr" or not f.ch(me):
+                return False
+            obj = f.strip(f.ch(me)[0])
+            if f.nodes[obj]["k"] == "CXXThisExpr":
+                this_obj = None                 # the helper's `this` is the caller's
+            elif not f.nodes[me].get("arrow") and f.nodes[obj]["k"] == "DeclRefExpr":
+                this_obj = obj                  # `other.helper()`: the helper's this->m is other.m
+            else:
                 return False
         else:
             args = [a for a in f.nodes[ci]["ch"][1:]]
@@ -1339,6 +1455,8 @@ class Program:
                 written.add(g.nodes[tgt]["decl"]["id"])
         pidx = {p_["id"]: k for k, p_ in enumerate(g.params)}
         alias = {}
+        if multi and written:
+            return False
         for pid_ in written:
             k = pidx.get(pid_)
             if k is None:
@@ -1421,10 +1539,79 @@ class Program:
                     nn["argOf"] = g.params[k]["name"]
                     nn["ch"] = [args[k] if k not in used else f._copy_subtree(args[k])]
                     used.add(k)
+        if this_obj is not None:
+            # `other.helper()`: this->m in the helper is other.m
+            for x, n in enumerate(g.nodes):
+                if n["k"] == "MemberExpr" and n.get("arrow") and n["ch"] and g.nodes[g.strip(n["ch"][0])]["k"] == "CXXThisExpr":
+                    nn = f.nodes[x + off]
+                    nn["arrow"] = False
+                    nn["ch"] = [f._copy_subtree(this_obj)]
+            if any(f.nodes[x + off]["k"] == "CXXThisExpr" and not any(
+                    g.nodes[a]["k"] == "MemberExpr" for a in [g.parent[x]] + ([g.parent[g.parent[x]]] if g.parent[x] >= 0 else []) if a >= 0)
+                    for x, n in enumerate(g.nodes) if n["k"] == "CXXThisExpr" and x in set(g.walk())):
+                del f.nodes[off:]
+                f._parent = None
+                return False
         f.nodes[g.body + off]["ch"] = []          # the copy of the helper's own body statement is not part of the tree (its statements get a new parent)
-        body_kids = [k + off for k in kids if not (rets and k == rets[0])]
+        body_kids = [k + off for k in kids if multi or not (rets and k == rets[0])]
         extra_elems = []
-        if ret_expr >= 0 and not (alias and g.nodes[g.strip(ret_expr)]["decl"].get("id") in alias if g.nodes[g.strip(ret_expr)]["k"] == "DeclRefExpr" else False):
+        pre_elems = []
+        if multi and not returned:
+            # every `return e` of the helper stores e where the caller wants the result (or is the end of the path, for a call statement)
+            first = True
+            if decl_target is not None:
+                decl_target["init"] = -1
+                body_kids = [S] + body_kids
+                pre_elems = [S]
+            for r in rets:
+                rn = f.nodes[r + off]
+                e = g.ch(r)[0] + off if g.ch(r) else -1
+                if lhs_node is not None:
+                    l = lhs_node if first else f._copy_subtree(lhs_node)
+                    first = False
+                    rn.update(dict(k="BinaryOperator", op="=", ch=[l, e], t=f.nodes[lhs_node].get("t"), synthetic=True))
+                elif decl_target is not None:
+                    f.nodes.append(dict(k="DeclRefExpr", ch=[], t=decl_target.get("type", ""), loc=f.nodes[S]["loc"], f=f.nodes[S].get("f"), synthetic=True,
+                                        decl=dict(kind="Var", name=decl_target["name"], id=decl_target["id"], type=decl_target.get("type", ""))))
+                    rn.update(dict(k="BinaryOperator", op="=", ch=[len(f.nodes) - 1, e], t=decl_target.get("type", ""), synthetic=True))
+                elif e >= 0:
+                    rn.update(dict(k="ParenExpr", ch=[e], synthetic=True))
+                else:
+                    rn.update(dict(k="NullStmt", ch=[], synthetic=True))
+                rn.pop("value", None)
+        # --- the helper returns one of its own locals into a variable of the caller: that local IS the caller's variable (no copy)
+        result_aliased = False
+        if not multi and ret_expr >= 0 and not alias and g.nodes[g.strip(ret_expr)]["k"] == "DeclRefExpr" and \
+                g.nodes[g.strip(ret_expr)]["decl"].get("kind") == "Var":
+            vid = g.nodes[g.strip(ret_expr)]["decl"]["id"]
+            vdecl = [(x, d) for x in g.walk() if g.nodes[x]["k"] == "DeclStmt" for d in g.nodes[x].get("decls", []) if d.get("id") == vid]
+            xdecl = None
+            if lhs_node is not None and f.nodes[f.strip(lhs_node, casts=False)]["k"] == "DeclRefExpr" and \
+                    f.nodes[f.strip(lhs_node, casts=False)]["decl"].get("kind") in ("Var", "ParmVar"):
+                xdecl = dict(f.nodes[f.strip(lhs_node, casts=False)]["decl"])
+            elif decl_target is not None and decl_target.get("dk") == "Var":
+                xdecl = dict(kind="Var", name=decl_target["name"], id=decl_target["id"], type=decl_target.get("type", ""))
+            arg_ids = {f.nodes[y]["decl"].get("id") for a in args for y in f.walk(a) if f.nodes[y]["k"] == "DeclRefExpr"}
+            same_type = lambda a, b: (a or "").replace("const ", "").replace(" ", "") == (b or "").replace("const ", "").replace(" ", "")   # noqa: E731
+            if xdecl is not None and len(vdecl) == 1 and len(g.nodes[vdecl[0][0]]["decls"]) == 1 and xdecl["id"] not in arg_ids and \
+                    not vdecl[0][1].get("static") and same_type(vdecl[0][1].get("type"), xdecl.get("type")):
+                for x, n in enumerate(g.nodes):
+                    if n["k"] == "DeclRefExpr" and n["decl"].get("id") == vid and n["decl"].get("kind") == "Var":
+                        f.nodes[x + off]["decl"] = dict(xdecl)
+                dn = f.nodes[vdecl[0][0] + off]
+                init = vdecl[0][1].get("init", -1)
+                if init is not None and init >= 0:
+                    f.nodes.append(dict(k="DeclRefExpr", ch=[], t=xdecl.get("type", ""), loc=f.nodes[S]["loc"], f=f.nodes[S].get("f"), synthetic=True, decl=dict(xdecl)))
+                    dn.update(dict(k="BinaryOperator", op="=", ch=[len(f.nodes) - 1, init + off], t=xdecl.get("type", ""), synthetic=True))
+                else:
+                    dn.update(dict(k="NullStmt", ch=[], synthetic=True))
+                dn.pop("decls", None)
+                if decl_target is not None:
+                    decl_target["init"] = -1
+                    body_kids = [S] + body_kids
+                    pre_elems = [S]
+                result_aliased = True
+        if not multi and not result_aliased and ret_expr >= 0 and not (alias and g.nodes[g.strip(ret_expr)]["decl"].get("id") in alias if g.nodes[g.strip(ret_expr)]["k"] == "DeclRefExpr" else False):
             loc = dict(loc=f.nodes[S]["loc"], f=f.nodes[S].get("f"))
             if lhs_node is not None:
                 f.nodes.append(dict(k="BinaryOperator", op="=", ch=[lhs_node, ret_expr + off], t=f.nodes[lhs_node].get("t"), synthetic=True, **loc))
@@ -1455,20 +1642,24 @@ class Program:
         for key in ("term", "termCond"):
             if key in B:
                 B2[key] = B.pop(key)
-        B["elems"] = B["elems"][:js[0]]
+        B["elems"] = B["elems"][:js[0]] + [dict(kind="stmt", n=x) for x in pre_elems]
         B["succ"] = [gentry + boff]
         B["noReturn"] = False
         drop = set()
-        if rets:
+        if rets and not multi:
             drop = {rets[0] + off}
             if ret_expr >= 0 and g.nodes[g.strip(ret_expr)]["k"] == "DeclRefExpr":
                 drop |= {x + off for x in g.walk(ret_expr)}
         for gbk in g.cfg["blocks"]:
             if gbk["id"] == gexit:
                 continue
+            # a block of the helper that ends in `throw` (or in a call that does not return) leaves the caller as well: its edge to the
+            # helper's exit becomes an edge to the caller's exit, not to the statements after the call
+            leaves = gbk.get("noReturn", False) or any(e.get("kind") == "stmt" and e.get("n", -1) >= 0 and g.nodes[e["n"]]["k"] == "CXXThrowExpr" for e in gbk["elems"])
+            out_to = f.cfg["exit"] if leaves else B2["id"]
             nb = dict(id=gbk["id"] + boff, elems=[dict(e, n=e["n"] + off) if e.get("kind") == "stmt" and e.get("n", -1) >= 0 else dict(e) for e in gbk["elems"]
                                                   if not (e.get("kind") == "stmt" and e.get("n", -1) + off in drop)],
-                      succ=[(B2["id"] if s_ == gexit else s_ + boff) if s_ >= 0 else s_ for s_ in gbk["succ"]], noReturn=gbk.get("noReturn", False))
+                      succ=[(out_to if s_ == gexit else s_ + boff) if s_ >= 0 else s_ for s_ in gbk["succ"]], noReturn=gbk.get("noReturn", False))
             for key in ("term", "termCond"):
                 if key in gbk and gbk[key] is not None and gbk[key] >= 0:
                     nb[key] = gbk[key] + off
